@@ -106,7 +106,8 @@ def impl(d):
         priv = PrivateKey(secret_exponent=d["key"])
         out, cur = [], None
         for n, sc in enumerate(d["seq"]):
-            if d["inplace"] and n == 1 and isinstance(cur, list) and len(cur) == 1 and sc is not None and "list" in sc and len(sc["list"]) == 2:
+            if d["inplace"] and n == 1 and isinstance(cur, list) and len(cur) == 1 and sc is not None and "list" in sc and len(sc["list"]) == 2 \
+                    and d["seq"][0] == {"list": [sc["list"][0]]}:
                 cur.append(tree_py(sc["list"][1]))          # the caller's list mutated in place
             else:
                 cur = sarg_py(sc)
